@@ -102,7 +102,7 @@ class Call:
     name     system call name;  path / path2  absolute normalised paths (path2: rename/link target, symlink's link path)
     flags    tuple of flag names (open flags, AT_REMOVEDIR ...);  ret  int or None ('?');  errno  'EEXIST' or None
     ts       wall-clock time (epoch seconds, strace -ttt) at which the call was entered
-    injected True when strace tampered with this call (error, signal or delay)
+    injected True when strace tampered with this call (error, delay; for signals: the call at the injection point)
     ok       the call took effect (ret >= 0); failed probes (EEXIST mkdir, ENOENT unlink) and injected errors: False
     mutating the call belongs to the mutating file-system calls (open with write flags, write to a regular file...)
     nwrites, nbytes   for an open: the write-like calls on that descriptor that were collapsed into it
@@ -611,6 +611,7 @@ class Running:
     def __init__(self, p, logf, cwd, counted, argv, timeout, keep_log):
         self.p, self.logf, self.cwd, self.counted, self.argv = p, logf, cwd, counted, argv
         self.timeout, self.keep_log = timeout, keep_log
+        self.inject = None
         self.t0 = time.time()
         self._stdin = None
         self._done = None
@@ -691,6 +692,15 @@ class Running:
         except OSError:
             text = ""
         parse(text, self.cwd, self.counted, t)
+        # strace marks error and delay injections with (INJECTED) / (DELAYED) but not signal injections:
+        # mark the call at the injection point ourselves when the run got that far
+        if self.inject and "signal" in self.inject and not isinstance(self.inject.get("when"), int):
+            try:
+                c = t.call_at(self.inject["when"])
+            except (ValueError, TypeError):
+                c = None
+            if c is not None:
+                c.injected = True
         # strace re-raises the tracee's fatal signal on itself: rc = -signal
         if t.rc is not None and t.rc < 0 and t.signal is None:
             try:
@@ -737,6 +747,7 @@ def start(cmd, env=None, cwd=None, inject=None, timeout=120, stdin=None, set=Non
     p = subprocess.Popen(argv, env=env, cwd=cwd, stdin=subprocess.PIPE if data is not None else subprocess.DEVNULL,
                          stdout=subprocess.PIPE, stderr=subprocess.PIPE, start_new_session=True)
     r = Running(p, logf, cwd, _names(expr), argv, timeout, keep_log)
+    r.inject = inject
     r._stdin = data
     return r
 
@@ -996,6 +1007,7 @@ def _selftest():
         t = trace(cpc, env=env, cwd=base, inject={"when": p1, "signal": "SIGINT"})
         print("== SIGINT at %r of cp: rc=%s killed=%s stdout=%s" % (p1, t.rc, t.killed, t.stdout.strip()[:80]))
         check(not t.killed and not os.listdir(locks_dir(root)), "stop request handled, lock released")
+        check([c.point for c in t.injected_calls()] == [p1] and "Stopping rocfl" in t.stdout, "the call at the signal's point is marked injected")
     finally:
         shutil.rmtree(base, ignore_errors=True)
     print("SELFTEST " + ("PASSED" if ok else "FAILED"))
